@@ -642,30 +642,46 @@ func c16Faults(c *core.Ctx, fc string, sc *impl.Scratch) {
 		"package main\n\nlet b0 () =\n  a0 ()\n",
 		"package main\n\nlet c0 () =\n  b0 ()\n",
 	}
+	// the same three files with 2500 filler functions each: outputs beyond 64 KiB (buffer and pipe sizes)
+	goodLarge := make([]string, len(good))
+	for i, g := range good {
+		var sb strings.Builder
+		sb.WriteString(g)
+		for k := 0; k < 2500; k++ {
+			fmt.Fprintf(&sb, "\nlet z%dx%d () =\n  %d\n", i, k, k)
+		}
+		goodLarge[i] = sb.String()
+	}
 	faults := []string{"ok", "missing-input", "input-is-directory", "dest-is-directory", "dest-symlink-to-dev-full", "input-syntax-error", "ok-over-stale-output"}
 	// reference outputs of the three good files (a clean directory, one invocation)
-	ref := map[string]string{}
-	{
+	refs := [2]map[string]string{{}, {}}
+	for sz, gs := range [][]string{good, goodLarge} {
 		dir := sc.TempDir("c16fr_")
 		var args []string
-		for i, g := range good {
+		for i, g := range gs {
 			n := fmt.Sprintf("x%d.fo", i)
 			os.WriteFile(filepath.Join(dir, n), []byte(g), 0o644)
 			args = append(args, n)
 		}
-		impl.Run(dir, 30*time.Second, "", fc, args...)
-		for i := range good {
+		impl.Run(dir, 60*time.Second, "", fc, args...)
+		for i := range gs {
 			b, _ := os.ReadFile(filepath.Join(dir, fmt.Sprintf("gen_x%d.go", i)))
-			ref[fmt.Sprintf("gen_x%d.go", i)] = string(b)
+			refs[sz][fmt.Sprintf("gen_x%d.go", i)] = string(b)
 		}
 		os.RemoveAll(dir)
 	}
+	c.Set("fault_pattern_large_output_bytes", len(refs[1]["gen_x0.go"]))
 	stale := strings.Repeat("// stale line of an older, longer output\n", 200)
 	st := explore.Explore(-1, func(ch *explore.Chooser) {
 		n := 1 + ch.Choose(3)
 		pat := make([]int, n)
 		for i := range pat {
 			pat[i] = ch.Choose(len(faults))
+		}
+		size := ch.Choose(2) // all files small / all files large
+		good, ref := good, refs[0]
+		if size == 1 {
+			good, ref = goodLarge, refs[1]
 		}
 		dir := sc.TempDir("c16f_")
 		defer os.RemoveAll(dir)
@@ -711,9 +727,12 @@ func c16Faults(c *core.Ctx, fc string, sc *impl.Scratch) {
 		for _, g := range pre {
 			os.Remove(filepath.Join(dir, g))
 		}
-		r := impl.Run(dir, 10*time.Second, "", fc, args...)
+		r := impl.Run(dir, 20*time.Second, "", fc, args...)
 		if r.TimedOut {
-			r = impl.Run(dir, 30*time.Second, "", fc, args...)
+			r = impl.Run(dir, 60*time.Second, "", fc, args...)
+		}
+		if size == 1 {
+			desc = append(desc, "(large files)")
 		}
 		c.Count(1, 0, 0, 1)
 		c.Hist("by_operator", "fault", 1)
